@@ -224,11 +224,35 @@ def regular : E → Rat → Bool
 
 /-! ### the inner `func`, and scalar / list dispatch -/
 
-/-- `func(arg)`: causal mask first, otherwise the lambdified function -/
+/-- `x` sits on the boundary of a Piecewise condition somewhere in `e` (both sides of a comparison are equal) -/
+def onBoundary : E → Rat → Bool
+  | .var, _ => false
+  | .const _, _ => false
+  | .nan, _ => false
+  | .add a b, x => onBoundary a x || onBoundary b x
+  | .sub a b, x => onBoundary a x || onBoundary b x
+  | .mul a b, x => onBoundary a x || onBoundary b x
+  | .div a b, x => onBoundary a x || onBoundary b x
+  | .neg a, x => onBoundary a x
+  | .pow a _, x => onBoundary a x
+  | .app _ a, x => onBoundary a x
+  | .pw _ l rhs thn els, x =>
+      (match specEval l x, specEval rhs x with
+       | .val a, .val b => a == b
+       | _, _ => false)
+      || onBoundary l x || onBoundary rhs x || onBoundary thn x || onBoundary els x
+
+/-- `func(arg)`: causal mask first, otherwise the lambdified function.  A NaN result sends the real code
+into `complex(expr.limit(var, arg))`: away from every condition boundary the limit of an exhausted
+Piecewise is again nan and the call ends with an exception (`nan` here); on a boundary a one-sided limit
+may exist, which the model does not exhibit (`other`). -/
 def funcScalar (isCausal : Bool) (e : E) (x : Rat) : Out :=
   match causalMask isCausal x with
   | some v => .val v
-  | none => evalNumeric e x
+  | none =>
+    match evalNumeric e x with
+    | .nan => if onBoundary e x then .other else .nan
+    | o => o
 
 inductive Arg where
   | scalar (x : Rat)
